@@ -567,17 +567,72 @@ Example C08_same_name_not_deleted :
 Proof. split; [left; reflexivity|]. split; vm_compute; reflexivity. Qed.
 
 (* ================================================================== *)
-(* 5. a counterexample to the unqualified "healthy rollouts finish"     *)
+(* 5. the gate only ever waits on a child the latest hook answer desires *)
 (* ================================================================== *)
-(* syncRevisionClaims (rolling_update.go) computes the surviving names of a
-   child-kind group but appends the group UNFILTERED (claims_of_revision keeps
-   `ck`, not the kept names).  A name the latest hook no longer desires
-   therefore stays in the latest revision as long as one sibling survives;
-   the gate then reports "missing child" for it on every sync, the state does
-   not change, and the pending child is never moved — although every child
-   the hook desires is observed and the ones on the latest revision are ready.
-   So "healthy" in items 1 and 2 must range over every name LISTED in the
-   latest revision (as child_ready does), not over the desired children. *)
+(* syncRevisionClaims keeps, of each child-kind group, only the names that the latest
+   revision still desires and that it newly claims (claims_of_revision builds
+   [mkRck group kind kept]).  So a name the latest hook answer no longer desires is not
+   listed by any revision after the claims pass; the first pass only adds desired names;
+   hence "missing child" (or any other reason to wait) can only name a desired child.
+   (With the earlier unfiltered groups a stale name stalled the rollout for ever.) *)
+From MC Require Proofs.RollClaims Proofs.RollMoves.
+
+Theorem C08_undesired_not_listed c ds prs prs' cl' p' ck name :
+  sync_revision_claims c ds 0 prs [] = (prs', cl') ->
+  In p' prs' -> In ck (rev_children (pr_rev p')) -> In name (ck_names ck) ->
+  is_rolling c (ck_group ck) (ck_kind ck) = true /\
+  find_desired ds (ck_group ck) (ck_kind ck) name <> None.
+Proof.
+  intros Hs Hin Hck Hname. apply RollClaims.sync_revision_claims_ok in Hs.
+  apply In_nth_error in Hin. destruct Hin as [m Hm].
+  assert (Hl : RollClaims.lists (pr_rev p') (ck_group ck, ck_kind ck, name) = true).
+  { apply RollClaims.lists_cs_spec. exists ck. auto. }
+  destruct (RollClaims.sc_listed _ _ _ _ _ _ _ Hs m p' _ _ _ Hm Hl) as (H1 & H2 & _). auto.
+Qed.
+
+Theorem C08_waits_only_on_desired c pns observed latest rest prs2 why :
+  sync_rolling_update c pns observed (latest :: rest) = Some (prs2, RWaiting why) ->
+  exists l2 rest2 ck name,
+    prs2 = l2 :: rest2 /\ pr_desired l2 = pr_desired latest /\
+    In ck (rev_children (pr_rev l2)) /\ is_rolling c (ck_group ck) (ck_kind ck) = true /\
+    In name (ck_names ck) /\
+    ~ child_ready c pns l2 observed ck name /\
+    find_desired (pr_desired latest) (ck_group ck) (ck_kind ck) name <> None.
+Proof.
+  intros Hsync. unfold sync_rolling_update in Hsync.
+  destruct (sync_revision_claims c (pr_desired latest) 0 (latest :: rest) []) as [prs1 cl1] eqn:Hc.
+  destruct (first_pass c pns observed prs1 cl1) as [prsA clA] eqn:Hf.
+  destruct (second_pass c pns observed prsA clA) as [prs3 st3] eqn:Hs2.
+  destruct prs3 as [|l3 rest3]; [discriminate|].
+  destruct (set_condition (hr_status (pr_resp l3)) "Updated" (rollout_condition st3 (rev_name (pr_rev l3))))
+    as [status'|]; [|discriminate].
+  injection Hsync as <- ->.
+  apply RollClaims.sync_revision_claims_ok in Hc.
+  (* after the claims pass every listed name is desired, and the head keeps pr_desired *)
+  assert (Hall : RollMoves.all_desired (pr_desired latest) prs1).
+  { intros p g kd n Hin Hl. apply In_nth_error in Hin. destruct Hin as [m Hm].
+    destruct (RollClaims.sc_listed _ _ _ _ _ _ _ Hc m p g kd n Hm Hl) as (_ & H & _). exact H. }
+  destruct prs1 as [|latest1 rest1]; [pose proof (RollClaims.sc_len _ _ _ _ _ _ _ Hc); discriminate|].
+  destruct (RollClaims.sc_same _ _ _ _ _ _ _ Hc 0 latest1 eq_refl) as (p0 & Hp0 & _ & _ & Hdes & _).
+  cbn [nth_error] in Hp0. injection Hp0 as <-.
+  assert (Hhd : RollMoves.head_desired (pr_desired latest) (latest1 :: rest1)).
+  { exists latest1, rest1. auto. }
+  rewrite RollMoves.first_pass_eq, Hdes in Hf.
+  destruct (RollMoves.fp_fold_desired c pns observed (pr_desired latest) (pr_desired latest) _ _ _ _
+              (fun e H => H) Hall Hhd Hf) as [HallA (pA & restA & -> & HdesA)].
+  destruct (second_pass_waiting _ _ _ _ _ _ _ Hs2) as (latestA & restA' & Heq & Heq' & Hgate).
+  injection Heq as <- <-. injection Heq' as -> ->.
+  destruct (gate_closed_witness _ _ _ _ _ Hgate) as (ck & name & Hck & Hroll & Hname & Hnot).
+  eexists. exists restA, ck, name. split; [reflexivity|]. cbn [pr_desired pr_rev].
+  split; [exact HdesA|]. split; [exact Hck|]. split; [exact Hroll|]. split; [exact Hname|].
+  split; [intros H; apply Hnot; exact H|].
+  apply (HallA pA (ck_group ck) (ck_kind ck) name (or_introl eq_refl)).
+  apply RollClaims.lists_cs_spec. exists ck. auto.
+Qed.
+
+(* the data of the former stall: the latest revision lists K:[x; y], the hook desires x
+   and z, x is observed and ready, z sits on the old revision, y is neither desired nor
+   observed.  y is now dropped by the claims pass and z moves. *)
 Definition stall_kc : child_cfg := mkChild "g/v1" "ks" "K" true "RollingRecreate".
 Definition stall_c : ccfg :=
   mkCfg "cc" "p/v1" "P" "ps" true true false (SelReqs []) [stall_kc] true false [stall_kc] false false [["spec"]] [].
@@ -585,7 +640,6 @@ Definition stall_kid (n : string) (v : Z) : json :=
   JObj [("apiVersion", JStr "g/v1"); ("kind", JStr "K");
         ("metadata", JObj [("name", JStr n); ("namespace", JStr "ns")]);
         ("spec", JObj [("v", JInt v)])].
-(* the observed x is exactly what applying the desired x produces *)
 Definition stall_x_observed : json :=
   match apply_update (obj_map (stall_kid "x" 2)) (obj_map (stall_kid "x" 2)) with Ok n => JObj n | _ => JNull end.
 Definition stall_resp : hook_resp := mkHR JNull [Some (stall_kid "x" 2); Some (stall_kid "z" 2)] JNull false.
@@ -597,18 +651,11 @@ Definition stall_old : prev :=
 Definition stall_observed : umap :=
   [("g/v1", "K", [("ns/x", stall_x_observed); ("ns/z", stall_kid "z" 1)])].
 
-Example C08_stale_name_stalls :
-  (* x, the only desired child on the latest revision, is ready *)
-  child_readyb stall_c "ns" stall_latest stall_observed (mkRck "g" "K" ["x"; "y"]) "x" = true /\
-  (* y is listed in the latest revision but not desired any more, and not observed *)
-  find_desired (pr_desired stall_latest) "g" "K" "y" = None /\
-  find_observed "ns" stall_observed "g" "K" "y" = None /\
-  (* the sync waits on y and leaves the revisions exactly as they were: a fixed point *)
-  option_map (fun r => (map pr_rev (fst r), map pr_desired (fst r), snd r))
+Example C08_stale_name_no_longer_stalls :
+  option_map (fun r => (map (fun p => rev_children (pr_rev p)) (fst r), snd r))
              (sync_rolling_update stall_c "ns" stall_observed [stall_latest; stall_old]) =
-  Some (map pr_rev [stall_latest; stall_old], map pr_desired [stall_latest; stall_old],
-        RWaiting "missing child K y").
-Proof. repeat split; vm_compute; reflexivity. Qed.
+  Some ([[mkRck "g" "K" ["x"; "z"]]; [mkRck "g" "K" []]], RProgressing "K" "z").
+Proof. vm_compute. reflexivity. Qed.
 
 Print Assumptions C08_never_waits_on_healthy.
 Print Assumptions C08_never_waits_on_healthy_b.
@@ -628,4 +675,6 @@ Print Assumptions C08_pruned_name_absent.
 Print Assumptions C08_emptied_revision_deleted.
 Print Assumptions C08_emptied_revision_delete_in_trace.
 Print Assumptions C08_same_name_not_deleted.
-Print Assumptions C08_stale_name_stalls.
+Print Assumptions C08_undesired_not_listed.
+Print Assumptions C08_waits_only_on_desired.
+Print Assumptions C08_stale_name_no_longer_stalls.
